@@ -45,6 +45,20 @@ int stub_udict_cmp(struct udict *a, struct udict *b)
 /* ---- ghost ------------------------------------------------------------------------------------------ */
 static struct upipe *g_pipe;
 static struct uref *g_in_uref;                  /* buffer given to input */
+static struct uref g_in_copy;                   /* ... and what it held when it was given */
+/* C05 "changing only what they are documented to change": the buffer that reaches the output is the one that came in,
+ * with the same payload / dictionary objects and the same scalar fields, except those in `may` (bit per field) and the
+ * flag bits in `flag_mask`; pipes that do change something define VP_CONTENT_OK with the exact new value */
+static inline bool spec_same_uref(const struct uref *a, const struct uref *b, unsigned may, uint64_t flag_mask)
+{
+    return a->ubuf == b->ubuf && a->udict == b->udict && a->mgr == b->mgr && ((a->flags ^ b->flags) & ~flag_mask) == 0 &&
+           ((may & VF_DATE_SYS) || a->date_sys == b->date_sys) && ((may & VF_DATE_PROG) || a->date_prog == b->date_prog) &&
+           ((may & VF_DATE_ORIG) || a->date_orig == b->date_orig) && a->dts_pts_delay == b->dts_pts_delay && a->cr_dts_delay == b->cr_dts_delay &&
+           ((may & VF_RAP_DELAY) || a->rap_cr_delay == b->rap_cr_delay) && a->priv == b->priv;
+}
+#ifndef VP_CONTENT_OK
+#define VP_CONTENT_OK(in, out, upipe) spec_same_uref(in, out, 0, 0)
+#endif
 static int g_uref_live_old, g_udict_live_old, g_out_refs_old, g_inputs_old, g_freed_old, g_setdef_old;
 static bool g_had_output, g_had_def; static int g_state_old;
 static int g_extra_held;                         /* buffers held by pipe-specific state (set by VP_EXTRA_STATE) */
@@ -168,9 +182,12 @@ void h_input(void)
     VIN(uint8_t, in_dict); VIN(uint16_t, in_id); VIN(uint8_t, in_ubuf); VIN(uint64_t, in_v);
     struct uref *uref = vs_make_uref((in_dict & 1) != 0, in_id, in_v); VASSUME(uref != NULL);
     if (in_ubuf & 1) { uref->ubuf = vs_make_ubuf(); VASSUME(uref->ubuf != NULL); }
-    g_in_uref = uref; g_uref_live_old = gs_uref_live;
+    g_in_uref = uref; g_in_copy = *uref; g_uref_live_old = gs_uref_live;
     upipe_input(upipe, uref, NULL);
     VPOST(post_input(upipe));
+#if VP_ONE_TO_ONE && VP_HAS_OUTPUT
+    VPOST(gs_out_inputs - g_inputs_old != 1 || VP_CONTENT_OK(&g_in_copy, &gs_out_last_copy, upipe));      /* only what the pipe is documented to change */
+#endif
     VCANARY();
 }
 void h_set_flow_def(void)
